@@ -18,7 +18,7 @@
    channel: which methods it has, which request buffers parse, whether it completes a request inside
    CallMethod or later) are arbitrary functions. *)
 From OlaBase Require Import Bytes.
-From C09 Require Import Gen GenTxt Model MultiProofs Final.
+From C09 Require Import Gen GenTxt Model MultiProofs FreeProofs Final.
 Local Open Scope N_scope.
 
 (* Side obligation: the constants of /repo are the property's numbers (1 MB limit, version 1, 4-byte
@@ -435,6 +435,56 @@ Theorem c09_send_any_size :
   forall (r : rpc) (m : msg), dead r = false -> send_msg false true r m = (r, [EvSend m], true).
 Proof. exact send_any_size. Qed.
 Print Assumptions c09_send_any_size.
+
+(* A request object is deleted only by the completion of that very request.  One step, ANY state: if the
+   step deletes request q, it is the service completing q (OpComplete q), or it is a chunk during which q
+   itself was handed to a service that answered from inside CallMethod (q is not below nreq at the start
+   of the chunk).  So the arrival of bytes -- further requests, a duplicate id (the superseded request is
+   only unregistered), rejected headers, Close() -- CallMethod and SetService never delete a request that
+   was outstanding; and hanging up / deleting the channel emits nothing at all (c09_hangup_frees_nothing).
+   With c09_server_once: a request handed to the service stays allocated until the service completes it. *)
+Theorem c09_freed_only_in_completion :
+  forall (decode : list N -> option msg) (method_kind : N -> list N -> N) (req_ok : N -> list N -> bool)
+         (service : N -> list N -> list N -> option sres)
+         (f : frame) (r : rpc) (o : op) (f' : frame) (r' : rpc) (evs : list event) (q : N),
+  step decode method_kind req_ok service f r o = (f', r', evs) -> In (EvFreeReq q) evs ->
+  (exists res ok, o = OpComplete q res ok) \/ (exists bs ok, o = OpChunk bs ok /\ nreq r <= q).
+Proof. exact step_frees. Qed.
+Print Assumptions c09_freed_only_in_completion.
+
+(* What handling one message may delete: only the request it has itself just registered (number nreq r),
+   and only if the service answered at once. *)
+Theorem c09_dispatch_frees :
+  forall (method_kind : N -> list N -> N) (req_ok : N -> list N -> bool)
+         (service : N -> list N -> list N -> option sres)
+         (cl ok : bool) (r : rpc) (m : msg) (r' : rpc) (evs : list event),
+  dispatch method_kind req_ok service cl ok r m = (r', evs) ->
+  nreq r <= nreq r' /\
+  forall q, In (EvFreeReq q) evs ->
+    q = nreq r /\ m_type m = REQUEST /\ service (svc r) (m_name m) (m_buf m) <> None.
+Proof. exact dispatch_frees. Qed.
+Print Assumptions c09_dispatch_frees.
+
+(* Histories: with a service that always answers later, every deletion in the trace of any history
+   (any bytes, duplicate ids, closes, calls, SetService) belongs to an OpComplete of that request. *)
+Theorem c09_freed_only_in_completion_history :
+  forall (decode : list N -> option msg) (method_kind : N -> list N -> N) (req_ok : N -> list N -> bool)
+         (service : N -> list N -> list N -> option sres),
+  (forall sv nm rq, service sv nm rq = None) ->
+  forall (ops : list op) (f : frame) (r : rpc) (f' : frame) (r' : rpc) (tr : list event) (q : N),
+  run decode method_kind req_ok service f r ops = (f', r', tr) -> In (EvFreeReq q) tr ->
+  exists res ok, In (OpComplete q res ok) ops.
+Proof. exact run_frees. Qed.
+Print Assumptions c09_freed_only_in_completion_history.
+
+(* a client hanging up (the server deleting its channel) deletes no request: what the service still holds
+   is freed by the late completion, outside the channel (fix 06) *)
+Theorem c09_hangup_frees_nothing :
+  forall (decode : list N -> option msg) (method_kind : N -> list N -> N) (req_ok : N -> list N -> bool)
+         (service : N -> list N -> list N -> option sres) (s : list (option (frame * rpc))) (i : nat),
+  sstep decode method_kind req_ok service s (SHangup i) = (upd i None s, []).
+Proof. reflexivity. Qed.
+Print Assumptions c09_hangup_frees_nothing.
 
 (* The hypotheses are satisfiable and the statements are not vacuous: a concrete history.
    decode: a body is a message of type RESPONSE whose id is its first byte.  Two calls (ids 0, 1), then
